@@ -323,7 +323,6 @@ MCLits(n, g) ==
   {FalseLit, TrueLit} \cup {<<1, i, s>> : i \in 0 .. n, s \in 0 .. 1}
                      \cup {<<2, j, s>> : j \in 0 .. g - 1, s \in 0 .. 1}
 MCGates(n, g) == {[k |-> k, ins |-> s] : k \in Kinds, s \in UNION {[1 .. len -> MCLits(n, g)] : len \in 0 .. 2}}
-MCCircuits == UNION {{[n |-> n, gates |-> gs] : gs \in [1 .. g -> MCGates(n, g)]} : n \in 0 .. MCN, g \in 1 .. 2}
 MCRoots(c) == {<<GateLit(1)>>, <<Flip(GateLit(NG(c)), TRUE), GateLit(1)>>}
 
 VARIABLE mcst
